@@ -72,7 +72,7 @@ def z_mean(x, mu, var):
     n = len(x)
     if n == 0 or var <= 0:
         return 0.0
-    return float((np.mean(x) - mu) / math.sqrt(var / n))
+    return float((np.mean(x) - mu) / (math.sqrt(var) / math.sqrt(n)))      # sqrt(var) first: var / n may be denormal
 
 
 def z_var(x, mu, var, kurt_excess):
@@ -80,8 +80,8 @@ def z_var(x, mu, var, kurt_excess):
     n = len(x)
     if n == 0 or var <= 0:
         return 0.0
-    m2 = float(np.mean((np.asarray(x, dtype=float) - mu) ** 2))
-    return (m2 - var) / math.sqrt(var * var * (2.0 + kurt_excess) / n)
+    d = (np.asarray(x, dtype=float) - mu) / math.sqrt(var)           # standardise first: var * var under- / overflows for extreme scales
+    return (float(np.mean(d * d)) - 1.0) / math.sqrt((2.0 + kurt_excess) / n)
 
 
 def z_lag1(x):
@@ -148,7 +148,7 @@ def z_halves(x, var):
     n = len(x) // 2
     if n < 10 or var <= 0:
         return 0.0
-    return float((x[:n].mean() - x[n:2 * n].mean()) / math.sqrt(2.0 * var / n))
+    return float((x[:n].mean() - x[n:2 * n].mean()) / (math.sqrt(var) * math.sqrt(2.0 / n)))      # sqrt(var) first: scale-robust
 
 
 def z_lag(x, k):
